@@ -392,6 +392,7 @@ def run(ctx):
     indexspace.rule(ctx, "R8.6")
     candidate_order_rule(ctx)
     ctx.attempt(inverse_map_rule, ctx, lib)
+    ctx.attempt(motion_application_rule, ctx)
 
 
 def candidate_order_rule(ctx):
@@ -593,3 +594,72 @@ def inverse_map_rule(ctx, lib):
             r.fail(f.qualname, f"affine:{name}", f.file, f.lineno, "_Get_Mapping", f"{name}: xi0 + (x(xi) - x0) @ invF is {bad[1]!r} for component {bad[0]}, not the reference coordinate")
         else:
             r.ok(f"{name}: xi0 + (x(xi) - x0) @ inv(F) == xi")
+
+
+def motion_application_rule(ctx):
+    """R8.13: Geoms.Rotate / Translate apply the motion they name: Rotate(x) = c + R (x - c) with R the matrix
+    _Rotation_matrix returns for (direction, theta * pi / 180) -- applied as R, not as its transpose (the inverse
+    rotation) -- and Translate(x) = x + (dx, dy, dz); interpreted with a symbolic matrix and symbolic points."""
+    from ..xeval import FuncInfo, _Bound, NP
+
+    repo = ctx.repo
+    r = ctx.rule("R8.13", "Rotate(x) == c + R (x - c) with R = _Rotation_matrix(direction, theta*pi/180) (not its transpose); Translate(x) == x + (dx, dy, dz)", min_instances=2)
+    fR, fT = repo.func(GU + ".Rotate"), repo.func(GU + ".Translate")
+    Rm = [[Poly.var(f"r{i}{j}") for j in range(3)] for i in range(3)]
+    cap = {}
+
+    def hook(fn, args, kwargs):
+        fi = fn if isinstance(fn, FuncInfo) else getattr(fn, "finfo", None)
+        if isinstance(fi, FuncInfo) and fi.name == "_Rotation_matrix":
+            cap["args"] = args
+            return XArray((3, 3), [Rm[i][j] for i in range(3) for j in range(3)])
+        if isinstance(fi, FuncInfo) and fi.name in ("AsCoords", "_"):
+            v = list(XArray.from_nested(args[0]).data)
+            return XArray((3,), v + [Q(0)] * (3 - len(v)))
+        return NotImplemented
+
+    def attr(obj, name):
+        if obj is NP and name == "pi":
+            return Poly.var("PI")
+        return NotImplemented
+
+    pts = XArray((2, 3), [Poly.var(f"x{n}{d}") for n in range(2) for d in range(3)])
+    c = XArray((3,), [Poly.var(f"c{d}") for d in range(3)])
+    axis = XArray((3,), [Poly.var(f"n{d}") for d in range(3)])
+    r.instance(fn=fR.qualname)
+    I = Interp(repo)
+    I.call_hook, I.attr_hook = hook, attr
+    try:
+        out = XArray.from_nested(I.call_function(fR, [pts, Q(30), c, axis]))
+        bad = None
+        if out.shape != (2, 3):
+            bad = f"shape {out.shape}"
+        else:
+            for n in range(2):
+                for i in range(3):
+                    want = c[i] + sum((Rm[i][j] * (pts[n, j] - c[j]) for j in range(3)), Poly())
+                    if not is_zero(Poly.of(out[n, i]) - want):
+                        wantT = c[i] + sum((Rm[j][i] * (pts[n, j] - c[j]) for j in range(3)), Poly())
+                        bad = f"component {i} of point {n} is {out[n, i]!r}" + (": the TRANSPOSE of the rotation matrix is applied (rotation by -theta)" if is_zero(Poly.of(out[n, i]) - wantT) else f", expected {want!r}")
+        a = cap.get("args")
+        if bad is None and a is not None:
+            ang = Poly.of(a[1]) if not isinstance(a[1], Poly) else a[1]
+            if not is_zero(ang - Poly.var("PI") * Q(30, 180)):
+                bad = f"the angle handed to _Rotation_matrix is {a[1]!r}, expected theta * pi / 180 (degrees to radians)"
+            elif list(XArray.from_nested(a[0]).data) != list(axis.data):
+                bad = "the axis handed to _Rotation_matrix is not the `direction` argument"
+        if bad:
+            r.fail(fR.qualname, "rotate-application", fR.file, fR.lineno, "Rotate", bad)
+        else:
+            r.ok("Rotate: c + R (x - c), angle in radians")
+    except XRaise as e:
+        r.fail(fR.qualname, "rotate-application", fR.file, fR.lineno, "Rotate", f"raises {e}")
+    r.instance(fn=fT.qualname)
+    I = Interp(repo)
+    I.call_hook = hook
+    d = [Poly.var("dx"), Poly.var("dy"), Poly.var("dz")]
+    out = XArray.from_nested(I.call_function(fT, [pts, d[0], d[1], d[2]]))
+    if out.shape == (2, 3) and all(is_zero(Poly.of(out[n, i]) - (pts[n, i] + d[i])) for n in range(2) for i in range(3)):
+        r.ok("Translate: x + (dx, dy, dz)")
+    else:
+        r.fail(fT.qualname, "translate-application", fT.file, fT.lineno, "Translate", "the translation is not x + (dx, dy, dz) component by component")
